@@ -55,7 +55,13 @@ Combine(a, b) == IF a = "reject" \/ b = "reject" THEN "reject" ELSE IF a = "eith
 VARIABLES kind, arm, muts, done
 vars == <<kind, arm, muts, done>>
 Init == kind \in Kinds /\ arm \in Armours /\ muts = <<>> /\ done = FALSE
+\* mutations that undo one another are not a malformed file: one byte removed and one added leave a well-formed key,
+\* an outer length increased and decreased is the right length (first thorough run of C18: TLC enumerated the pairs,
+\* the parser rightly accepted the result)
+Cancel(a, b) == \/ {a, b} = {"outer_len_plus", "outer_len_minus"}
+                \/ (a # b /\ "key_long" \in {a, b} /\ {a, b} \subseteq {"key_long", "key_short", "inner_len"})
 Mutate(m) == /\ ~done /\ Len(muts) < MaxMut /\ m # "none" /\ Applicable(kind, arm, m)
+             /\ \A i \in 1..Len(muts) : ~Cancel(muts[i], m)
              /\ \A i \in 1..Len(muts) : muts[i] # m
              /\ (Len(muts) > 0 => Rank(muts[Len(muts)]) < Rank(m))
              /\ muts' = Append(muts, m) /\ UNCHANGED <<kind, arm, done>>
